@@ -40,7 +40,7 @@ GEN_MODULES = [("GenTheta", ["theta/hash_table.rs", "theta/serialization.rs", "t
                  "theta/sketch.rs": ["preamble_longs"]})]
 OPNAMES = {1: "update", 2: "insert_hash", 3: "update_preimage", 4: "trim", 5: "reset", 6: "compact", 7: "dump",
            8: "layout", 9: "layout_exact", 10: "serialize", 11: "serialize_compressed", 12: "deserialize", 13: "reserialize",
-           14: "roundtrip", 15: "roundtrip_slot"}
+           14: "roundtrip", 15: "roundtrip_slot", 16: "bounds"}
 CORR_MASK = [1, 2, 3, 4, 5, 6, 7, 9, 10]   # op 8 (raw layout at any time) is judged by the layout oracle only
 
 M = (1 << 64) - 1
@@ -115,7 +115,7 @@ class Sim:
             self.rebuild()
 
 
-def gen_case(rng, cid, tier, lg_k=None, size_class=None):
+def gen_case(rng, cid, tier, lg_k=None, size_class=None, p_choices=None):
     if lg_k is None:
         if tier == "quick":
             lg_k = rng.choice([5, 5, 5, 6, 6, 7, 7, 8, 9, 10, 11, 12])
@@ -125,8 +125,8 @@ def gen_case(rng, cid, tier, lg_k=None, size_class=None):
     # how far to go: below nominal (exact mode, resizes), well into estimation mode, or (sampling sketches)
     # a few updates that theta screens out: the sketch is not empty although it retains nothing
     size_class = size_class or rng.choice(["tiny", "exact", "est", "est", "deep", "screened"])
-    pbits, p = f32_widened_bits(rng.choice([1.0, 1.0, 1.0, 0.5, 0.5, 1e-3, 0.999, 0.25, 2.0 ** -20]))
-    if size_class == "screened":
+    pbits, p = f32_widened_bits(rng.choice(p_choices or [1.0, 1.0, 1.0, 0.5, 0.5, 1e-3, 0.999, 0.25, 2.0 ** -20]))
+    if size_class == "screened" and not p_choices:
         pbits, p = f32_widened_bits(rng.choice([2.0 ** -20, 2.0 ** -30, 1e-3, 1e-20, 1e-30, 2.0 ** -63, 2.0 ** -64]))
     seed = rng.choice([9001, 9001, 0, 1, 2**64 - 1, rng.getrandbits(64)])
     if pyref.seed_hash(seed) == 0:
@@ -573,6 +573,24 @@ def gen_size_case(rng, cid, tier, big=False):
     return Case(cid, cfg, ops, tag="theta-size")
 
 
+def gen_extreme_case(rng, cid, tier):
+    """C17: valid API histories at the documented extremes (lg_k 5, the smallest and largest sampling probabilities, every
+    resize factor, trim/reset/compact interleaved), with the confidence bounds and both serializers called along the way"""
+    lg_k = rng.choice([5, 5, 5, 6, 12])
+    ps = rng.choice([[1.0], [1.0], [0.5], [1e-38], [2.0 ** -64], [2.0 ** -63], [2.0 ** -62], [1e-20], [2.0 ** -149], [0.99999994]])
+    size_class = "screened" if ps[0] < 1e-6 else rng.choice(["tiny", "exact", "est", "deep"])
+    c = gen_case(rng, cid, tier, lg_k=lg_k, size_class=size_class, p_choices=ps)
+    ops = []
+    for code, a in c.ops:
+        ops.append((code, a))
+        if code == 7:
+            ops.append((16, []))
+            if rng.random() < 0.5:
+                o = rng.getrandbits(1)
+                ops.append((11, [o])); ops.append((14, [o, rng.getrandbits(1)]))
+    return Case(cid, c.cfg, ops, tag="theta-extreme")
+
+
 def gen(rng, tier, n=None, focus=None):
     n = n or (120 if tier == "quick" else 1500)
     if focus in ("codec", "layout"):
@@ -584,6 +602,8 @@ def gen(rng, tier, n=None, focus=None):
         return [gen_malformed_case(rng, i, tier) for i in range(n)]
     if focus == "size":
         return [gen_size_case(rng, i, tier, big=(i == 0)) for i in range(n)]
+    if focus == "extremes":
+        return [gen_extreme_case(rng, i, tier) for i in range(n)]
     cases = []
     for i in range(n):
         if tier == "thorough" and i % 150 == 149:
